@@ -1,6 +1,6 @@
 (* Properties/C12.v — stream iteration yields each value once with exact offsets (model level). Pinned statements only. *)
 From SJ Require Import Base.Bytes Base.FloatB Gen.Tables Model.Read Model.Str Model.Num Model.Value Model.De Model.Ignore Model.Stream Spec.Syntax Spec.Denote.
-From SJ Require Import Proofs.StreamProps.
+From SJ Require Import Proofs.StreamProps Proofs.StreamFinal.
 
 (* the set of bytes that may follow a bare scalar: whitespace, structural characters, quote (end of input is handled separately) *)
 Theorem C12_delimiters : forall b,
@@ -53,23 +53,27 @@ Theorem C12_total : forall E itemp ss ss',
   stream_next E itemp ss = (Some IBad, ss') -> exists s1, itemp E s1 = OutOfFuel \/ itemp E s1 = Panic.
 Proof. exact stream_next_bad_only_from_item. Qed.
 
-(* history theorem: a concatenation  w0 v1 w1 v2 w2 ... vn wn  of values separated by optional whitespace, where every bare
-   scalar is followed by whitespace, a delimiter byte or the end, yields exactly v1..vn with byte_offset just past each value,
-   then None forever with byte_offset at the end of the text.  PARTIAL: stated under the completeness of the item parser for a
-   value followed by arbitrary text (premise [Hitem]); the grammar theorem proved in GrammarValue covers values followed by
-   whitespace, ',', ']', '}' or end of input — the generalisation to any non-continuing follower is not integrated yet. *)
-Theorem C12_values_partial : forall (cf : cfg) (rk : rkind),
-  (forall c v rst off pk d,
-     wfb c = true -> denote cf c = Some v ->
-     (limit_disabled cf = false -> (cdepth c < N.to_nat d)%nat) -> (d <= 128)%N ->
-     (is_cnum c = true -> val_follow rst) ->
-     exists pk', value_item (mkEnv rk TEof cf) (mkSt (render c ++ rst) off pk d)
-                 = Ok (v, mkSt rst (off + length (render c))%nat pk' d) /\ (pk' = true -> rst <> [])) ->
+(* history theorem (all value lists, any reader kind among slice/io, any cfg): a concatenation  w0 v1 w1 v2 w2 ... vn wn  of values
+   separated by optional whitespace, where every bare scalar is followed by whitespace, a delimiter byte or the end
+   ([items_ok_full]), yields exactly v1..vn with byte_offset just past each value, then None forever with byte_offset at the end. *)
+Theorem C12_values : forall (cf : cfg) (rk : rkind), (rk = RSlice \/ rk = RIo) ->
   forall (items : list (cst * value * list N)) (w0 : list N) (k : nat),
   ws_ok w0 = true -> items_ok_full cf items ->
   stream_run (length items + k) (mkEnv rk TEof cf) value_item (stream_init (w0 ++ stream_text items))
   = stream_obs (length w0) items ++ repeat (None, length (w0 ++ stream_text items)) k.
-Proof. exact stream_values_full. Qed.
+Proof. exact C12_values_final. Qed.
+
+(* an I/O error hit by the one-byte lookahead after a bare scalar is terminal: yielded once, then None forever *)
+Theorem C12_lookahead_io_terminal : forall E itemp ss w b r v s2 k i,
+  is_io E = true ->
+  (is_io E && ss_failed ss = false) ->
+  rest (ss_st ss) = w ++ b :: r -> ws_ok w = true -> ws_byte b = false ->
+  itemp E (mkSt (b :: r) (off (ss_st ss) + length w)%nat true (depth (ss_st ss))) = Ok (v, s2) ->
+  self_del b = false -> peek_end_of_value E s2 = Err (Io k) i ->
+  exists ss', stream_next E itemp ss = (Some (IErr (Io k) i), ss')
+     /\ ss_off ss' = off s2
+     /\ forall n, Forall (fun o => fst o = None /\ snd o = off s2) (stream_run n E itemp ss').
+Proof. exact stream_lookahead_io_terminal. Qed.
 
 (* non-vacuity *)
 Example C12_example :
@@ -82,4 +86,5 @@ Proof. vm_compute. reflexivity. Qed.
 Print Assumptions C12_end.
 Print Assumptions C12_terminal_error.
 Print Assumptions C12_item.
-Print Assumptions C12_values_partial.
+Print Assumptions C12_values.
+Print Assumptions C12_lookahead_io_terminal.
